@@ -1,6 +1,6 @@
 (* C14 — model-vs-implementation comparison and boolean form of the property, evaluated with
    vm_compute on the cases the harness writes. Definitions only. *)
-From V Require Import Base.Common Model.C14_Backup.
+From V Require Import Base.Common Model.C14_Backup Model.C14_Peerstore.
 Local Open Scope N_scope.
 
 (* ------------------------------------------------------------------ *)
@@ -61,7 +61,109 @@ Fixpoint bk_check (id : N) (keep : nat) (before : listing) (fs : list fold_t) (s
   end.
 
 (* ------------------------------------------------------------------ *)
+(* Peerstore file (package pstoremgr: real LoadPeerstore / ImportPeersFromPeerstore / PeerInfos / SavePeerstoreForPeers) *)
+Definition tr_eqb2 (a b : transport) : bool := N.eqb (fst a) (fst b) && Bool.eqb (snd a) (snd b).
+Definition otr_eqb (a b : option transport) : bool :=
+  match a, b with Some x, Some y => tr_eqb2 x y | None, None => true | _, _ => false end.
+Definition paddr_eqb (a b : paddr) : bool :=
+  match a, b with
+  | PRaw x, PRaw y => N.eqb x y
+  | PP2p p t, PP2p q u => N.eqb p q && otr_eqb t u
+  | _, _ => false
+  end.
+Definition opaddr_eqb (a b : option paddr) : bool :=
+  match a, b with Some x, Some y => paddr_eqb x y | None, None => true | _, _ => false end.
+Definition line_eqb (a b : line) : bool :=
+  match a, b with
+  | LEmpty, LEmpty => true
+  | LText c p, LText d q => N.eqb c d && opaddr_eqb p q
+  | _, _ => false
+  end.
+
+(* an observed peer info against the model's: non-DNS address lists exactly (sorted by string), DNS ones as a set *)
+Definition pinfo_eqb (m o : pinfo) : bool :=
+  N.eqb (fst m) (fst o) &&
+  (if existsb (fun t => snd t) (snd m) then list_eqb tr_eqb2 (snd m) (sort_by tr_key (snd o))
+   else list_eqb tr_eqb2 (snd m) (snd o)).
+
+Fixpoint sorted_nat (l : list nat) : bool :=
+  match l with a :: ((b :: _) as r) => (a <=? b)%nat && sorted_nat r | _ => true end.
+Fixpoint nodup_nat (l : list nat) : bool :=
+  match l with [] => true | a :: r => negb (existsb (Nat.eqb a) r) && nodup_nat r end.
+
+(* model list vs observed list: exactly when the priorities are distinct, else same elements and sorted by priority *)
+Definition pinfos_eqb (ps : pstore) (m o : list pinfo) : bool :=
+  if nodup_nat (map (fun pi => prio_of ps (fst pi)) m) then list_eqb pinfo_eqb m o
+  else Nat.eqb (length m) (length o)
+       && forallb (fun x => existsb (pinfo_eqb x) o) m
+       && sorted_nat (map (fun pi => prio_of ps (fst pi)) o).
+
+Definition opinfos_eqb (ps : pstore) (m : list pinfo) (o : option (list pinfo)) : bool :=
+  match o with Some l => pinfos_eqb ps m l | None => false end.
+
+Definition is_some {A} (o : option A) : bool := match o with Some _ => true | None => false end.
+
+(* an arbitrary file: load, import into an empty host, ask PeerInfos *)
+Definition ps_file_check (id self : N) (ls : list line) (query : list N)
+           (obs_load : list (option paddr)) (obs_infos : option (list pinfo)) : list (N * N * N) :=
+  (if list_eqb opaddr_eqb (load_lines ls) obs_load
+      && match import_file true self ls ps_empty with
+         | ICrash => negb (is_some obs_infos)
+         | IOk ps => opinfos_eqb ps (peer_infos self ps query) obs_infos
+         end
+   then [] else [(id, 1, 0)]) ++
+  (* unparsable lines are skipped rather than fatal: no nil element, no crash *)
+  (if forallb is_some obs_load && is_some obs_infos then [] else [(id, 12, 0)]).
+
+Definition ps_build (pre : list (N * list transport * option nat)) : pstore :=
+  fold_left (fun ps e => let '(p, trs, pr) := e in
+                         let ps1 := fold_left (fun a t => add_addr p t a) trs ps in
+                         match pr with Some i => set_prio p i ps1 | None => ps1 end) pre ps_empty.
+
+(* exact equality of two observations of PeerInfos, address lists as sets (the DNS ones come in map order) *)
+Definition obs_pinfo_eqb (a b : pinfo) : bool :=
+  N.eqb (fst a) (fst b) && list_eqb tr_eqb2 (sort_by tr_key (snd a)) (sort_by tr_key (snd b)).
+
+(* group the loaded addresses by consecutive peer; None if something is not <transport>/p2p/<peer> *)
+Fixpoint group_loaded (l : list (option paddr)) : option (list pinfo) :=
+  match l with
+  | [] => Some []
+  | Some (PP2p p (Some t)) :: r =>
+      match group_loaded r with
+      | Some ((q, ts) :: g) => if N.eqb p q then Some ((q, t :: ts) :: g) else Some ((p, [t]) :: (q, ts) :: g)
+      | Some [] => Some [(p, [t])]
+      | None => None
+      end
+  | _ => None
+  end.
+
+Definition same_infos (a : option (list pinfo)) (b : list pinfo) : bool :=
+  match a with Some l => list_eqb obs_pinfo_eqb l b | None => false end.
+
+(* save on host 1, load and import on host 2 *)
+Definition ps_save_check (id self1 self2 : N) (pre : list (N * list transport * option nat)) (query query2 : list N)
+           (obs0 : list pinfo) (obs_lines : list line) (obs_load : list (option paddr)) (obs2 : option (list pinfo))
+  : list (N * N * N) :=
+  let ps1 := ps_build pre in
+  (if pinfos_eqb ps1 (peer_infos self1 ps1 query) obs0
+      && same_infos (group_loaded (load_lines (save_lines obs0))) obs0         (* the model's file *)
+      && same_infos (group_loaded (load_lines obs_lines)) obs0                 (* the real file, address order within a peer aside *)
+      && Nat.eqb (length obs_lines) (length (save_lines obs0))
+      && list_eqb opaddr_eqb (load_lines obs_lines) obs_load
+      && match import_file true self2 obs_lines ps_empty with
+         | ICrash => negb (is_some obs2)
+         | IOk ps => opinfos_eqb ps (peer_infos self2 ps query2) obs2
+         end
+   then [] else [(id, 1, 0)]) ++
+  (* the file reads back as the same addresses in the same priority order *)
+  (if same_infos (group_loaded obs_load) obs0 && same_infos obs2 obs0
+   then [] else [(id, 13, 0)]).
+
+(* ------------------------------------------------------------------ *)
 Inductive payload :=
+| PPsFile (self : N) (ls : list line) (query : list N) (obs_load : list (option paddr)) (obs_infos : option (list pinfo))
+| PPsSave (self1 self2 : N) (pre : list (N * list transport * option nat)) (query query2 : list N)
+          (obs0 : list pinfo) (obs_lines : list line) (obs_load : list (option paddr)) (obs2 : option (list pinfo))
 | PBackup (keep : nat) (olds0 : listing (* old.0 .. old.(W-1) *)) (sts : list (step N)) (obs : list listing).
 
 Definition case := (N * payload)%type.
@@ -70,6 +172,8 @@ Definition check_case (c : case) : list (N * N * N) :=
   let '(id, p) := c in
   match p with
   | PBackup keep olds0 sts obs => bk_check id keep (None :: olds0) [] sts obs
+  | PPsFile self ls query ol oi => ps_file_check id self ls query ol oi
+  | PPsSave s1 s2 pre q q2 o0 ol old o2 => ps_save_check id s1 s2 pre q q2 o0 ol old o2
   end.
 
 Definition failing (cs : list case) : list (N * N * N) := flat_map check_case cs.
